@@ -15,7 +15,8 @@ Defined.
 
 (* ---------------------------------------------------------------------------------------- *)
 (* basic facts *)
-Definition norm (l : list Z) : option (list Z) := match l with [] => None | l => Some l end.
+Definition norm (l : list Z) : option (list Z) :=
+  match l with [] => None | z :: l0 => Some (z :: l0) end.
 
 Lemma norm_snoc l x : norm (l ++ [x]) = Some (l ++ [x]).
 Proof. destruct l; reflexivity. Qed.
@@ -311,4 +312,282 @@ Proof.
       * apply Z.eqb_eq in E. subst o'. rewrite lookup_insert, orb_true_r, Hs. reflexivity.
       * apply Z.eqb_neq in E. rewrite lookup_insert_ne by congruence.
         rewrite orb_false_r, Hok, spenders_snoc. reflexivity.
+Qed.
+
+Lemma idx_ok_snoc_nil ins p t : idx_ok ins (p ++ [(t, [])]) <-> idx_ok ins p.
+Proof.
+  unfold idx_ok. split; intros H o; specialize (H o); rewrite spenders_snoc in *;
+    simpl in *; rewrite app_nil_r in *; exact H.
+Qed.
+
+Lemma R_add_fresh s p t body ins c :
+  R s p -> hb (txs s) t = None ->
+  add_inputs (inputs s) [] t body = (ins, c) ->
+  (forall m2 reqs, outpoints m2 = body ->
+     R (MemPool (<[t := m2]> (txs s)) ins reqs)
+       (if zlen body =? 0 then p else p ++ [(t, body)])) /\
+  c = conflicts_of p t body /\ held p t = false.
+Proof.
+  intros HR Hhb Hadd.
+  assert (Hheld : held p t = false) by (rewrite (R_held s p t HR), Hhb; reflexivity).
+  destruct HR as [Hnd Htx Hidx].
+  assert (Hni : t ∉ map fst p).
+  { intros Hin. apply held_elem in Hin. congruence. }
+  destruct (add_inputs_spec p t Hni body [] (inputs s) []) as [Hi Hc].
+  { apply idx_ok_snoc_nil. exact Hidx. }
+  rewrite Hadd in Hi, Hc. simpl in Hi, Hc.
+  split; [|split; [exact Hc | exact Hheld]].
+  intros m2 reqs Hm2.
+  rewrite zlen_eqb0. destruct body as [|x body].
+  - split; simpl; [exact Hnd| |apply idx_ok_snoc_nil in Hi; exact Hi].
+    intros t' b. rewrite hb_insert. destruct (decide (t' = t)) as [->|Hne]; [|apply Htx].
+    rewrite Hm2. simpl. split; [|congruence]. intros Hin. apply Htx in Hin. congruence.
+  - split; simpl; [| |exact Hi].
+    + rewrite map_app. simpl. apply NoDup_app. split; [exact Hnd|]. split; [|apply NoDup_singleton].
+      intros y Hy Hy'. apply elem_of_list_singleton in Hy'. subst. contradiction.
+    + intros t' b. rewrite hb_insert, elem_of_app, elem_of_list_singleton.
+      destruct (decide (t' = t)) as [->|Hne].
+      * rewrite Hm2. simpl. split.
+        -- intros [Hin|Heq]; [apply Htx in Hin; congruence | congruence].
+        -- intros Heq. right. congruence.
+      * rewrite <- Htx. split; [|tauto]. intros [Hin|Heq]; [exact Hin | congruence].
+Qed.
+
+Lemma R_add s p now t body tr : R s p ->
+  let r := add_transaction s now t body tr in
+  let r' := ref_step p (OAddTx t body tr) in
+  R (fst r) (fst r') /\ b2z (snd (snd r)) :: fst (fst (snd r)) = snd r'.
+Proof.
+  intros HR. cbv zeta. unfold add_transaction, ref_step.
+  destruct (txs s !! t) as [m|] eqn:Em.
+  - rewrite zlen_eqb0. destruct (outpoints m) as [|x b0] eqn:Eo; simpl negb; cbv iota.
+    + destruct (add_inputs (inputs s) [] t body) as [ins c] eqn:Ea.
+      destruct (R_add_fresh s p t body ins c HR) as (HR' & Hc & Hh); [|exact Ea|].
+      { unfold hb. rewrite Em, Eo. reflexivity. }
+      rewrite Hh. simpl. split; [apply HR'; reflexivity|]. rewrite Hc. reflexivity.
+    + assert (Hh : held p t = true).
+      { rewrite (R_held s p t HR). unfold hb. rewrite Em, Eo. reflexivity. }
+      rewrite Hh. simpl. split; [|reflexivity].
+      apply (R_same_view s); [exact HR| |reflexivity]. simpl.
+      intros t'. rewrite hb_insert. destruct (decide (t' = t)) as [->|Hne]; [|reflexivity].
+      unfold hb. rewrite Em. destruct (tr && negb (mtrusted m)); simpl; rewrite ?Eo; reflexivity.
+  - destruct (add_inputs (inputs s) [] t body) as [ins c] eqn:Ea.
+    destruct (R_add_fresh s p t body ins c HR) as (HR' & Hc & Hh); [|exact Ea|].
+    { unfold hb. rewrite Em. reflexivity. }
+    rewrite Hh. simpl. split; [apply HR'; reflexivity|]. rewrite Hc. reflexivity.
+Qed.
+
+Lemma add_request_view s now t tr :
+  let s' := fst (add_request s now t tr) in
+  (forall t', hb (txs s') t' = hb (txs s) t') /\ inputs s' = inputs s.
+Proof.
+  cbv zeta. unfold add_request. destruct (txs s !! t) as [m|] eqn:Em.
+  - assert (Hv : forall m1, outpoints m1 = outpoints m ->
+                  forall t', hb (<[t := m1]> (txs s)) t' = hb (txs s) t').
+    { intros m1 Hm1 t'. rewrite hb_insert. destruct (decide (t' = t)) as [->|Hne]; [|reflexivity].
+      unfold hb. rewrite Em, Hm1. reflexivity. }
+    assert (Ho : outpoints (if tr && negb (mtrusted m)
+                            then MTx (mtime m) (outpoints m) true else m) = outpoints m).
+    { destruct (tr && negb (mtrusted m)); reflexivity. }
+    destruct (negb (zlen (outpoints m) =? 0));
+      [|destruct (requests s !! t) as [t0|]; [destruct (now - t0 >? REQ_WINDOW)|]];
+      simpl; (split; [apply Hv; exact Ho | reflexivity]).
+  - assert (Hv : forall t', hb (<[t := MTx now [] tr]> (txs s)) t' = hb (txs s) t').
+    { intros t'. rewrite hb_insert. destruct (decide (t' = t)) as [->|Hne]; [|reflexivity].
+      unfold hb. rewrite Em. reflexivity. }
+    destruct (requests s !! t) as [t0|]; [destruct (now - t0 >? REQ_WINDOW)|];
+      simpl; (split; [exact Hv | reflexivity]).
+Qed.
+
+(* ---------------------------------------------------------------------------------------- *)
+(* remove_inputs / remove_transaction *)
+Definition rm_entry (t : Z) (x : option (list Z)) : option (list Z) :=
+  match x with Some l => norm (filter (fun y => y ≠ t) l) | None => None end.
+
+Lemma rm_entry_idem t x : rm_entry t (rm_entry t x) = rm_entry t x.
+Proof.
+  destruct x as [l|]; simpl; [|reflexivity].
+  destruct (norm (filter (fun y => y ≠ t) l)) as [l'|] eqn:E; [|reflexivity].
+  apply norm_Some in E. destruct E as [-> Hne]. simpl. rewrite filter_idem.
+  apply norm_ne. exact Hne.
+Qed.
+
+Lemma rm_entry_norm t l : rm_entry t (norm l) = norm (filter (fun y => y ≠ t) l).
+Proof. destruct l; reflexivity. Qed.
+
+Definition rm_step (t : Z) (ins : gmap Z (list Z)) (o : Z) : gmap Z (list Z) :=
+  match ins !! o with
+  | Some l => let r := filter (fun x => x ≠ t) l in
+              if zlen r >? 0 then <[o := r]> ins else delete o ins
+  | None => ins
+  end.
+
+Lemma rm_step_lookup t ins o o' :
+  rm_step t ins o !! o' = if decide (o' = o) then rm_entry t (ins !! o) else ins !! o'.
+Proof.
+  unfold rm_step. destruct (ins !! o) as [l|] eqn:E; cbv zeta.
+  - rewrite zlen_gtb0. simpl rm_entry.
+    destruct (filter (fun x => x ≠ t) l) as [|y r] eqn:F;
+      destruct (decide (o' = o)) as [->|Hne];
+      rewrite ?lookup_delete, ?lookup_insert, ?lookup_delete_ne, ?lookup_insert_ne by congruence;
+      reflexivity.
+  - destruct (decide (o' = o)) as [->|Hne]; [exact E | reflexivity].
+Qed.
+
+Lemma remove_inputs_lookup t ops : forall ins o',
+  remove_inputs ins t ops !! o' = if mem o' ops then rm_entry t (ins !! o') else ins !! o'.
+Proof.
+  induction ops as [|a ops IH]; intros ins o'; [reflexivity|].
+  change (remove_inputs ins t (a :: ops)) with (remove_inputs (rm_step t ins a) t ops).
+  rewrite IH, rm_step_lookup.
+  change (mem o' (a :: ops)) with ((o' =? a) || mem o' ops).
+  destruct (decide (o' = a)) as [->|Hne].
+  - rewrite Z.eqb_refl. simpl. destruct (mem a ops); [apply rm_entry_idem | reflexivity].
+  - apply Z.eqb_neq in Hne. rewrite Hne. reflexivity.
+Qed.
+
+Lemma R_remove s p t : R s p ->
+  R (fst (remove_transaction s t)) (remove_tx p t) /\ snd (remove_transaction s t) = held p t.
+Proof.
+  intros HR. pose proof (R_held s p t HR) as Hh. destruct HR as [Hnd Htx Hidx].
+  unfold remove_transaction. unfold hb in Hh. destruct (txs s !! t) as [m|] eqn:Em; simpl.
+  - split.
+    + split; simpl.
+      * apply remove_tx_NoDup. exact Hnd.
+      * intros t' b. rewrite remove_tx_elem, hb_delete. simpl.
+        destruct (decide (t' = t)) as [->|Hne].
+        -- split; [tauto|congruence].
+        -- rewrite Htx. tauto.
+      * intros o. rewrite remove_inputs_lookup, spenders_remove_tx.
+        destruct (mem o (outpoints m)) eqn:E; rewrite (Hidx o); [apply rm_entry_norm|].
+        rewrite filter_all; [reflexivity|]. intros x Hx ->.
+        apply spenders_elem in Hx. destruct Hx as (b & Hp & Ho).
+        apply Htx in Hp. unfold hb in Hp. rewrite Em in Hp. apply norm_Some in Hp.
+        destruct Hp as [-> _]. apply mem_elem in Ho. congruence.
+    + rewrite zlen_eqb0, Hh. destruct (outpoints m); reflexivity.
+  - rewrite remove_tx_id by exact Hh. split; [|symmetry; exact Hh].
+    split; simpl; assumption.
+Qed.
+
+(* ---------------------------------------------------------------------------------------- *)
+(* conflicting *)
+Definition cf_inner : mempool * list Z -> Z -> mempool * list Z :=
+  fun '(s, acc) t => (fst (remove_transaction s t), acc ++ [t]).
+
+Definition cf_outer : mempool * list Z -> Z -> mempool * list Z :=
+  fun '(s, acc) o =>
+  match inputs s !! o with
+  | Some l => fold_left cf_inner l (s, acc)
+  | None => (s, acc)
+  end.
+
+Definition rcf_outer : pool * list Z -> Z -> pool * list Z :=
+  fun '(p, acc) o => let l := spenders p o in (fold_left remove_tx l p, acc ++ l).
+
+Lemma conflicting_unfold s body : conflicting s body = fold_left cf_outer body (s, []).
+Proof. reflexivity. Qed.
+
+Lemma cf_inner_spec l : forall s p acc, R s p ->
+  R (fst (fold_left cf_inner l (s, acc))) (fold_left remove_tx l p) /\
+  snd (fold_left cf_inner l (s, acc)) = acc ++ l.
+Proof.
+  induction l as [|t l IH]; intros s p acc HR.
+  - simpl. rewrite app_nil_r. auto.
+  - simpl fold_left. destruct (IH (fst (remove_transaction s t)) (remove_tx p t) (acc ++ [t]))
+      as [H1 H2].
+    { apply R_remove. exact HR. }
+    split; [exact H1|]. rewrite H2, <- app_assoc. reflexivity.
+Qed.
+
+Lemma cf_outer_spec body : forall s p acc, R s p ->
+  R (fst (fold_left cf_outer body (s, acc))) (fst (fold_left rcf_outer body (p, acc))) /\
+  snd (fold_left cf_outer body (s, acc)) = snd (fold_left rcf_outer body (p, acc)).
+Proof.
+  induction body as [|o body IH]; intros s p acc HR.
+  - simpl. auto.
+  - simpl fold_left. rewrite (R_idx s p HR o).
+    destruct (spenders p o) as [|x l] eqn:E.
+    + simpl. rewrite app_nil_r. apply IH. exact HR.
+    + change (norm (x :: l)) with (Some (x :: l)). cbv iota.
+      destruct (cf_inner_spec (x :: l) s p acc HR) as [H1 H2].
+      destruct (fold_left cf_inner (x :: l) (s, acc)) as [s1 acc1]. simpl in H1, H2. subst acc1.
+      apply IH. exact H1.
+Qed.
+
+(* ---------------------------------------------------------------------------------------- *)
+(* one step *)
+Lemma step_R s now p o : R s p ->
+  R (fst (fst (step (s, now) o))) (fst (ref_step p o)) /\
+  c05_proj o (snd (step (s, now) o)) = snd (ref_step p o).
+Proof.
+  intros HR. destruct o as [dt|t tr|t body tr|t|t|t|body|o]; simpl step.
+  - simpl. auto.
+  - destruct (add_request_view s now t tr) as [Hv Hi].
+    destruct (add_request s now t tr) as [s1 [a b]]. simpl in *.
+    split; [|reflexivity]. apply (R_same_view s); assumption.
+  - pose proof (R_add s p now t body tr HR) as H. cbv zeta in H.
+    destruct (add_transaction s now t body tr) as [s1 [[c tr1] added]]. simpl in H.
+    simpl fst. simpl snd. simpl c05_proj. exact H.
+  - destruct (R_remove s p t HR) as [H1 H2].
+    destruct (remove_transaction s t) as [s1 b]. simpl in *. subst b. auto.
+  - simpl. split; [exact HR|]. rewrite (R_held s p t HR). unfold transaction_exists, hb.
+    destruct (txs s !! t) as [m|]; [|reflexivity]. rewrite zlen_eqb0.
+    destruct (outpoints m); reflexivity.
+  - simpl. auto.
+  - rewrite conflicting_unfold.
+    change (ref_step p (OConflicting body))
+      with (let '(p1, c) := fold_left rcf_outer body (p, []) in (p1, OK :: c)).
+    destruct (cf_outer_spec body s p [] HR) as [H1 H2].
+    destruct (fold_left cf_outer body (s, [])) as [s1 c].
+    destruct (fold_left rcf_outer body (p, [])) as [p1 c1]. simpl in *. subst c1. auto.
+  - simpl. split; [exact HR|]. rewrite (R_idx s p HR o).
+    destruct (spenders p o); reflexivity.
+Qed.
+
+Lemma run_refines ops : forall s now p, R s p ->
+  proj_trace c05_proj ops (run_from (s, now) ops) = ref_run_from p ops.
+Proof.
+  induction ops as [|o ops IH]; intros s now p HR; [reflexivity|].
+  change (run_from (s, now) (o :: ops))
+    with (let '(st1, ob) := step (s, now) o in ob :: run_from st1 ops).
+  change (ref_run_from p (o :: ops))
+    with (let '(p1, ob) := ref_step p o in ob :: ref_run_from p1 ops).
+  destruct (step_R s now p o HR) as [H1 H2].
+  destruct (step (s, now) o) as [[s1 now1] ob]. destruct (ref_step p o) as [p1 rob].
+  simpl in H1, H2. simpl proj_trace. rewrite H2. f_equal. apply IH. exact H1.
+Qed.
+
+Theorem mempool_refines_pool :
+  forall ops : list op, proj_trace c05_proj ops (run ops) = ref_run ops.
+Proof. intros ops. apply run_refines. exact R_init. Qed.
+
+Lemma after_R ops : forall st p, R (fst st) p ->
+  R (fst (fold_left (fun st o => fst (step st o)) ops st))
+    (fold_left (fun p o => fst (ref_step p o)) ops p).
+Proof.
+  induction ops as [|o ops IH]; intros [s now] p HR; [exact HR|].
+  change (fold_left (fun st o => fst (step st o)) (o :: ops) (s, now))
+    with (fold_left (fun st o => fst (step st o)) ops (fst (step (s, now) o))).
+  change (fold_left (fun p o => fst (ref_step p o)) (o :: ops) p)
+    with (fold_left (fun p o => fst (ref_step p o)) ops (fst (ref_step p o))).
+  apply IH. apply step_R. exact HR.
+Qed.
+
+Lemma R_after ops : R (mp_after ops) (ref_after ops).
+Proof. unfold mp_after, ref_after. apply after_R. exact R_init. Qed.
+
+Theorem index_exact :
+  forall (ops : list op) (o : Z),
+    inputs (mp_after ops) !! o =
+      match spenders (ref_after ops) o with [] => None | l => Some l end.
+Proof. intros ops o. exact (R_idx _ _ (R_after ops) o). Qed.
+
+Theorem pool_wellformed :
+  forall ops : list op,
+    NoDup (map fst (ref_after ops)) /\ Forall (fun e => snd e <> []) (ref_after ops) /\
+    (forall o, NoDup (spenders (ref_after ops) o)).
+Proof.
+  intros ops. pose proof (R_after ops) as HR. split; [apply (R_nodup _ _ HR)|]. split.
+  - apply (R_nonempty _ _ HR).
+  - intros o. apply spenders_NoDup. apply (R_nodup _ _ HR).
 Qed.
